@@ -16,6 +16,15 @@ from torch_frame.data.mapper import (
 from torch_frame.typing import Series
 
 
+def _flatten(ser: Series) -> np.ndarray:
+    r"""Flattens a series of numbers or number sequences into a 1-D array."""
+    flattened = np.hstack(ser.values)
+    if flattened.size == 0:
+        # All sequences are empty: there is no value to compute stats from.
+        return flattened.astype(float)
+    return np.hstack(flattened)
+
+
 class StatType(Enum):
     r"""The different types for column statistics.
 
@@ -85,7 +94,7 @@ class StatType(Enum):
         sep: str | None = None,
     ) -> Any:
         if self == StatType.MEAN:
-            flattened = np.hstack(np.hstack(ser.values))
+            flattened = _flatten(ser)
             finite_mask = np.isfinite(flattened)
             if not finite_mask.any():
                 # NOTE: We may just error out here if eveything is NaN
@@ -93,14 +102,14 @@ class StatType(Enum):
             return np.mean(flattened[finite_mask]).item()
 
         elif self == StatType.STD:
-            flattened = np.hstack(np.hstack(ser.values))
+            flattened = _flatten(ser)
             finite_mask = np.isfinite(flattened)
             if not finite_mask.any():
                 return np.nan
             return np.std(flattened[finite_mask]).item()
 
         elif self == StatType.QUANTILES:
-            flattened = np.hstack(np.hstack(ser.values))
+            flattened = _flatten(ser)
             finite_mask = np.isfinite(flattened)
             if not finite_mask.any():
                 return [np.nan, np.nan, np.nan, np.nan, np.nan]
